@@ -22,7 +22,8 @@ RULE = ('generated object classes (type()/exec): 1-3 interfaces declared on a ba
         'implementation invoked exactly once with equal arguments and the caller name iff the lookup succeeds. '
         'Non-trivial = the call reaches user code or fails a lookup stage other than the first; distinct = case JSON. In half of the '
         'cases the base class still declares an older edition (same name, first half of the methods) of each interface the '
-        'exported class declares: the exported class\'s own declaration is in force.')
+        'exported class declares: the exported class\'s own declaration is in force. A third of the '
+        'objects reach IDBusObject only through a registered adapter.')
 ASSUMPTIONS = ['a call without interface may run any implementation bound to that member whose interface signature matches, '
                'or be refused InvalidArgs if some interface declaring the member has another signature',
                'every declared (interface, member) has exactly one binding; members sharing a name across interfaces all '
@@ -131,10 +132,35 @@ def _build(case):
     obj = Sub(case['path'])
     conn = _Conn()
     h = O.DBusObjectHandler(conn)
-    h.exportObject(obj)
+    if _adapted(case):
+        # the application object is not an IDBusObject itself: a registered adapter provides one for it
+        # (exportObject() adapts what it is given)
+        h.exportObject(_plain_for(O, obj))
+    else:
+        h.exportObject(obj)
     conn.sent[:] = []
     state['binding'] = binding
     return h, conn, obj, state
+
+
+class _Plain:
+    def __init__(self, dbus_obj):
+        self.dbus_obj = dbus_obj
+
+
+_ADAPTER_REGISTERED = []
+
+
+def _plain_for(O, dbus_obj):
+    from twisted.python import components
+    if not _ADAPTER_REGISTERED:
+        components.registerAdapter(lambda plain: plain.dbus_obj, _Plain, O.IDBusObject)
+        _ADAPTER_REGISTERED.append(True)
+    return _Plain(dbus_obj)
+
+
+def _adapted(case):
+    return case.get('adapted', (len(case['path']) + len(case['calls'])) % 3 == 0)
 
 
 def _older_editions(case):
@@ -417,6 +443,8 @@ def classify(case):
     nt = False
     if _older_editions(case):
         labels.append('older_edition_in_base_class')
+    if _adapted(case):
+        labels.append('exported_through_adapter')
     for call in case['calls']:
         exported = call['path'] == case['path']
         cands = [m for i in case['ifaces'] if call['iface'] in (None, i['name']) for m in i['methods']
